@@ -31,7 +31,8 @@ import time
 from pathlib import Path
 from typing import Optional
 
-HANG_SAMPLES = 24           # polls (0.5 s each) without progress after which the run is declared hung
+SPIN_EVENTS = 3000          # coordinator events without any task progress: it is spinning
+HANG_SAMPLES = 16           # polls (0.5 s each) without progress after which the run is declared hung
 
 
 # =========================================================================== runner process
@@ -108,7 +109,29 @@ def _runner_main(jobs_path: str, out_path: str) -> None:
                 cached, vals = D.observe_cache(lab, built, cfg['n'])
             insts = [[o.tid, int(getattr(o, 'result_meta', None) is not None), anc]
                      for o, anc in D.walk_instances(req)]
+            pair = None
+            if job.get('ctx_pair') and cfg['storage']:
+                # the same request under a *different* context (same epoch), serial backend, fresh storage:
+                # keys and stored metadata must not depend on the context
+                sdir2 = jdir / 'storage2'
+                st2 = labtech.storage.LocalStorage(sdir2)
+                D.prepare_storage(cfg, st2, job.get('shape_seed', 0))
+                built2 = D.Built(cfg, job.get('shape_seed', 0))
+                ctx2 = D.lab_context(1, cfg['n'])
+                ctx2.update({'big': 'y' * 7, 'extra': [1, 2, 3]})
+                lab2 = labtech.Lab(storage=str(sdir2), context=ctx2, runner_backend='serial',
+                                   continue_on_failure=True, notebook=False)
+                old2 = list(labtech.logger.handlers)
+                labtech.logger.handlers = [Collect()]
+                try:
+                    lab2.run_tasks(built2.requested(), bust_cache=cfg['bust'], disable_progress=True, disable_top=True)
+                except BaseException:   # noqa
+                    pass
+                labtech.logger.handlers = old2
+                pair = (_listing(sdir), _listing(sdir2))
             _verif.emit('obs_end')
+            if pair is not None:
+                _verif.emit('obs_ctxstore', a=pair[0], b=pair[1])
             _verif.emit('obs_cache', cached=cached, vals=vals)
             _verif.emit('obs_marks', insts=insts)
             _verif.emit('obs_logs', delivered=handler.msgs)
@@ -123,6 +146,22 @@ def _runner_main(jobs_path: str, out_path: str) -> None:
             shutil.rmtree(jdir, ignore_errors=True)
 
 
+def _listing(sdir) -> list:
+    out = []
+    for key in sorted(os.listdir(sdir)):
+        p = os.path.join(sdir, key)
+        if not os.path.isdir(p):
+            continue
+        try:
+            meta = json.load(open(os.path.join(p, 'metadata.json')))
+            meta.pop('start_timestamp', None)
+            meta.pop('duration_seconds', None)
+            out.append(key + '|' + json.dumps(meta, sort_keys=True))
+        except Exception as ex:   # noqa
+            out.append(key + '|unreadable:' + type(ex).__name__)
+    return out
+
+
 # =========================================================================== controller
 class Tail:
     def __init__(self, path: Path):
@@ -133,7 +172,7 @@ class Tail:
         try:
             with open(self.path, 'rb') as f:
                 f.seek(self.pos)
-                data = f.read()
+                data = f.read(1 << 20)
         except FileNotFoundError:
             return out
         self.pos += len(data)
@@ -168,24 +207,45 @@ class Controller:
         os.write(self.fd, (json.dumps(rec, separators=(',', ':')) + '\n').encode())
 
     def run(self) -> list:
-        jf, of = self.dir / 'jobs.json', self.dir / 'out.ndjson'
-        json.dump(self.jobs, open(jf, 'w'))
+        """Run all jobs; a runner that had to be killed (hang) is replaced for the remaining jobs."""
+        remaining = list(self.jobs)
+        part = 0
+        while remaining:
+            done = self.run_part(remaining, part)
+            remaining = remaining[done:]
+            part += 1
+        return self.results
+
+    def run_part(self, jobs: list, part: int) -> int:
+        jf, of = self.dir / f'jobs{part}.json', self.dir / f'out{part}.ndjson'
+        json.dump(jobs, open(jf, 'w'))
+        self.trace_file = self.dir / f'trace{part}.ndjson'
         env = dict(self.env)
         env['LABTECH_VERIF_TRACE'] = str(self.trace_file)
-        env['LV_R3_DIR'] = str(self.dir)
+        pdir = self.dir / f'part{part}'
+        pdir.mkdir()
+        env['LV_R3_DIR'] = str(pdir)
+        (pdir / 'tmp').mkdir()
+        env['TMPDIR'] = str(pdir / 'tmp')
         self.fd = os.open(self.trace_file, os.O_WRONLY | os.O_APPEND | os.O_CREAT, 0o644)
         self.proc = subprocess.Popen([self.py, '-m', 'lv.rigs.real', str(jf), str(of)], cwd=str(self.dir), env=env,
                                      stdout=subprocess.DEVNULL, stderr=open(self.dir / 'err.txt', 'w'),
                                      start_new_session=True)
         tail = Tail(self.trace_file)
+        done = 0
         try:
-            for k, job in enumerate(self.jobs):
-                self.results.append(self.steer(k, job, tail))
-                (self.dir / f'job{k}' / 'ack').touch()
-            self.proc.wait(timeout=60)
+            for k, job in enumerate(jobs):
+                res = self.steer(k, job, tail)
+                self.results.append(res)
+                done += 1
+                if res.get('aborted'):
+                    break
+                (pdir / f'job{k}' / 'ack').touch()
+            else:
+                self.proc.wait(timeout=60)
         finally:
             self.cleanup()
-        return self.results
+        return done
 
     def cleanup(self):
         if self.proc is not None and self.proc.poll() is None:
@@ -220,6 +280,7 @@ class Controller:
         ints = 0
         outcome_seen = False
         hang = False
+        events_since_progress = 0
         gate_dir = None
         deadline = time.time() + self.job_timeout
         post_exit_polls = 0
@@ -258,6 +319,9 @@ class Controller:
                 if in_setup or in_obs:
                     continue
                 ev.append(r)
+                events_since_progress += 1
+                if e in ('pstart', 'consume', 'died', 'exec_stop', 'rbegin', 'rend', 'load', 'outcome'):
+                    events_since_progress = 0
                 if e == 'submit':
                     uc[r['t']] = r['uc']
                 elif e == 'pstart':
@@ -296,7 +360,9 @@ class Controller:
             inflight = [t for t in started if t not in finished]
             blocked = [t for t in inflight if t in entered and t not in released and t not in killed]
             at_rest = sample_after_change and len(blocked) == len(inflight)
-            if at_rest:
+            if events_since_progress >= SPIN_EVENTS and not outcome_seen:
+                at_rest = False
+            if at_rest and (blocked or (actions and inflight)):
                 samples_since_progress = 0
                 act = actions[0] if actions else None
                 if act is None:
@@ -327,7 +393,7 @@ class Controller:
                         sample_after_change = False
                 if blocked and not inflight:
                     pass
-            elif samples_since_progress >= HANG_SAMPLES and not hang:
+            elif (samples_since_progress >= HANG_SAMPLES or events_since_progress >= SPIN_EVENTS) and not hang:
                 # the coordinator polls and polls although nothing it waits for can still happen
                 hang = True
                 self.write({'e': 'outcome', 'kind': 'hang', 'exc': 'Hang', 'cause': '', 'keys': [], 'vals': []})
